@@ -102,13 +102,17 @@ def mk_ops(rng, B, rem_bits, leafs, which=None):
 def ref_ops(rng, B, leafs):
     ops = []
     for k in range(0, 5):
-        c = bridge.to_lib(rc.RC('101', [rc.RC(rc.u(i, 3)) for i in range(k)]))
-        ops.append(Op(f'store_cell({k} refs)', lambda b, c=c: b.store_cell(c), '101', k))
-        for consumed in range(0, k + 1):
-            s = c.begin_parse()
-            for _ in range(consumed):
-                s.load_ref()
-            ops.append(Op(f'store_slice({k} refs, {consumed} consumed)', lambda b, s=s: b.store_slice(s), '101', k - consumed))
+        for nb in (3, 0, 950, rng.randint(0, 1023)):
+            cb = gen.rand_bits(rng, nb)
+            c = bridge.to_lib(rc.RC(cb, [rc.RC(rc.u(i, 3)) for i in range(k)]))
+            ops.append(Op(f'store_cell({k} refs)', lambda b, c=c: b.store_cell(c), cb, k))
+            for consumed in range(0, k + 1):
+                s = c.begin_parse()
+                for _ in range(consumed):
+                    s.load_ref()
+                skip = rng.choice([0, 0, rng.randint(0, nb)])
+                s.skip_bits(skip) if skip else None
+                ops.append(Op(f'store_slice({k} refs, {consumed} consumed)', lambda b, s=s: b.store_slice(s), cb[skip:], k - consumed))
     ops.append(Op('store_ref', lambda b: b.store_ref(leafs[0]), '', 1))
     ops.append(Op('store_maybe_ref(cell)', lambda b: b.store_maybe_ref(leafs[1]), '1', 1))
     ops.append(Op('store_dict(cell)', lambda b: b.store_dict(leafs[1]), '1', 1))
@@ -213,7 +217,7 @@ def reads(R, B, rng, rem, nrefs, leafs, origins_subset=None):
                 if over:
                     if st == 'ok':
                         R.violation(f'overread-returned-{kname}-{"plain" if "plain" in oname else "tvm"}',
-                                    f'{kname} of {req_bits} bits with {rem} remaining (slice via {oname}) returned {v!r:.80} instead of raising', W)
+                                    f'{kname} of {req_bits} bits with {rem} remaining (slice via {oname}) returned {mon.srepr(v, 80)} instead of raising', W)
                     else:
                         R.exc(v)
                         R.counters['oracle_evaluations'] += 1
@@ -233,7 +237,7 @@ def reads(R, B, rng, rem, nrefs, leafs, origins_subset=None):
                 st, v = mon.call(f, mk())
                 R.count(f'reads:{kname}:over')
                 if st == 'ok':
-                    R.violation(f'overread-returned-{kname}', f'{kname} on an empty slice ({oname}) returned {v!r}', {'origin': oname})
+                    R.violation(f'overread-returned-{kname}', f'{kname} on an empty slice ({oname}) returned {mon.srepr(v)}', {'origin': oname})
                 else:
                     R.counters['oracle_evaluations'] += 1
         # references
@@ -244,7 +248,7 @@ def reads(R, B, rng, rem, nrefs, leafs, origins_subset=None):
         st, v = mon.call(s.load_ref)
         R.count('reads:load_ref:over')
         if st == 'ok':
-            R.violation('overread-returned-load_ref', f'load_ref with none remaining ({oname}) returned {v!r}', {'origin': oname, 'nrefs': nrefs})
+            R.violation('overread-returned-load_ref', f'load_ref with none remaining ({oname}) returned {mon.srepr(v)}', {'origin': oname, 'nrefs': nrefs})
         else:
             R.counters['oracle_evaluations'] += 1
 
@@ -269,7 +273,7 @@ def structured_overreads(R, B, rng):
             st, v = mon.call(f, c.begin_parse())
             R.count(f'reads:{name.split("(")[0]}:over')
             if st == 'ok':
-                R.violation(f'overread-returned-{name}-{origin}', f'{name} on truncated data returned {v!r:.80} instead of raising', {'bits': bits, 'origin': origin})
+                R.violation(f'overread-returned-{name}-{origin}', f'{name} on truncated data returned {mon.srepr(v, 80)} instead of raising', {'bits': bits, 'origin': origin})
             else:
                 R.exc(v)
                 R.counters['oracle_evaluations'] += 1
@@ -349,7 +353,8 @@ def run(R):
             R.case(mon.fp('w', fill, op.name, op.bits if op.bits is None else len(op.bits)))
     for fr in range(5):
         for op in ref_ops(rng, B, leafs):
-            for fb in (0, 1022, 1023, rng.randrange(1024)):
+            nb = len(op.bits or '')
+            for fb in sorted({0, max(0, 1023 - nb - 1), max(0, 1023 - nb), min(1023, 1024 - nb), rng.randrange(1024)}):
                 apply(R, B, fb, fr, op, leafs, {})
                 R.case(mon.fp('r', fr, fb, op.name))
     rems = [r for r in range(1024) if r % R.nshards == R.shard]
